@@ -11,6 +11,9 @@ func convertLinesInto(ex *currency.ExchangeRate, lines []*Line) []*Line {
 	}
 	nls := make([]*Line, len(lines))
 	for i, l := range lines {
+		if l == nil {
+			continue
+		}
 		nls[i] = convertLineInto(ex, l)
 	}
 	return nls
@@ -36,6 +39,9 @@ func convertLineInto(ex *currency.ExchangeRate, line *Line) *Line {
 	// Use alt price if available
 	altFound := false
 	for i, ap := range l2i.AltPrices {
+		if ap == nil {
+			continue
+		}
 		if ap.Currency == ex.To {
 			price = ap.Value
 			// remove this alt price from the list
@@ -52,6 +58,9 @@ func convertLineInto(ex *currency.ExchangeRate, line *Line) *Line {
 	if len(l2.Discounts) > 0 {
 		rows := make([]*LineDiscount, len(l2.Discounts))
 		for i, v := range line.Discounts {
+			if v == nil {
+				continue
+			}
 			d := *v
 			d.Amount = d.Amount.Upscale(accuracy).Multiply(ex.Amount)
 			rows[i] = &d
@@ -62,6 +71,9 @@ func convertLineInto(ex *currency.ExchangeRate, line *Line) *Line {
 	if len(l2.Charges) > 0 {
 		rows := make([]*LineCharge, len(l2.Charges))
 		for i, v := range line.Charges {
+			if v == nil {
+				continue
+			}
 			d := *v
 			d.Amount = d.Amount.Upscale(accuracy).Multiply(ex.Amount)
 			rows[i] = &d
@@ -80,6 +92,9 @@ func convertDiscountsInto(ex *currency.ExchangeRate, discounts []*Discount) []*D
 	}
 	ds := make([]*Discount, len(discounts))
 	for i, d := range discounts {
+		if d == nil {
+			continue
+		}
 		ds[i] = convertDiscountInto(ex, d)
 	}
 	return ds
@@ -98,6 +113,9 @@ func convertChargesInto(ex *currency.ExchangeRate, charges []*Charge) []*Charge 
 	}
 	cs := make([]*Charge, len(charges))
 	for i, c := range charges {
+		if c == nil {
+			continue
+		}
 		cs[i] = convertChargeInto(ex, c)
 	}
 	return cs
@@ -120,6 +138,9 @@ func convertPaymentDetailsInto(ex *currency.ExchangeRate, pd *PaymentDetails) *P
 	}
 	p2.Advances = make([]*pay.Advance, len(pd.Advances))
 	for i, a := range pd.Advances {
+		if a == nil {
+			continue
+		}
 		a2 := *a
 		a2.Amount = a2.Amount.
 			Upscale(defaultCurrencyConversionAccuracy).
